@@ -241,7 +241,7 @@ async def search(ctx):
     await cli_targets(ctx)
     import corr_kernel as _ck
 
-    await _ck.run_scenarios(ctx, lambda ctx, run_: Observer(ctx, run_), ["nested_chain", "amended_consumer_rerun", "retarget_optional"])
+    await _ck.run_scenarios(ctx, lambda ctx, run_: Observer(ctx, run_), ["nested_chain", "amended_consumer_rerun", "retarget_optional", "plan_need_demotion"])
     import contextlib
 
     import corr_kernel
